@@ -127,6 +127,10 @@ class TypeState:
             if isinstance(t, ast.Name):
                 self.env[t.id] = val
                 return
+            if isinstance(t, ast.Tuple) and all(isinstance(x, ast.Name) for x in t.elts) and isinstance(val, tuple) and len(val) == len(t.elts):
+                for x, v in zip(t.elts, val):
+                    self.env[x.id] = v
+                return
             if isinstance(t, ast.Attribute) and isinstance(t.value, ast.Name) and t.value.id == "self":
                 nm = t.attr
                 if nm in self.hidden or nm in self.plain:
@@ -161,6 +165,13 @@ class TypeState:
                 return v == NONE
             if isinstance(t.ops[0], ast.IsNot):
                 return v != NONE
+        if isinstance(t, (ast.Name, ast.Attribute)):
+            # truth value of a field: None is false; a set value is taken as generic (non-zero) -- the zero case is a
+            # question about values, decided by the arithmetic rule on symbols and zero, not by this None/set typestate
+            v = self._eval(t)
+            if v in (NONE, SET):
+                self.generic_truth = True
+                return v == SET
         raise AnalysisError(f"test `{src_of(t)}` is outside the typestate fragment ({self.ci.name}.{self.stack[-1]})")
 
     # ------------------------------------------------------------ expressions
@@ -224,4 +235,6 @@ class TypeState:
             return SET
         if isinstance(e, ast.IfExp):
             return self._eval(e.body) if self._test(e.test) else self._eval(e.orelse)
+        if isinstance(e, ast.Tuple):
+            return tuple(self._eval(x) for x in e.elts)
         raise AnalysisError(f"expression `{src_of(e)[:60]}` is outside the typestate fragment")
